@@ -105,6 +105,8 @@ type Enc struct {
 	merges   map[int]*mergeInfo
 	dyn      map[ssa.Value]types.Type // interface-typed parameters specialised to a dynamic type
 	spec     map[string]string        // parameter name -> type string (from the property config)
+	effTaint bool
+	effDepth int
 	specName string
 	skipKinds []string
 	tinv     []*Clause
